@@ -98,6 +98,58 @@ Proof.
   rewrite (Rabs_right (1 + tanh x)) by lra. lra.
 Qed.
 
+(* ... and the negated forms (a value that is NOT within the budget) *)
+Lemma tanh_big_far : forall x r t, 20 <= x ->
+  t + 1 / 10 ^ 17 < Rabs (1 - r) -> t < Rabs (tanh x - r).
+Proof.
+  intros x r t Hx H. pose proof (tanh_big_pos x Hx) as [H0 H1].
+  replace (tanh x - r) with ((1 - r) - (1 - tanh x)) by ring.
+  pose proof (Rabs_triang_inv (1 - r) (1 - tanh x)) as Ht.
+  rewrite (Rabs_right (1 - tanh x)) in Ht by lra. lra.
+Qed.
+
+Lemma tanh_big_far_rel : forall x r, 20 <= x ->
+  1 / 10 ^ 9 + 1 / 10 ^ 17 < Rabs (1 - r) -> 1 / 10 ^ 9 * Rabs (tanh x) + 0 < Rabs (tanh x - r).
+Proof.
+  intros x r Hx H. pose proof (tanh_big_pos x Hx) as [H0 H1].
+  assert (Hb : Rabs (tanh x) <= 1).
+  { apply Rabs_le. assert (1 / 10 ^ 17 < 1) by (interval with (i_prec 64)). lra. }
+  assert (Hf : 1 / 10 ^ 9 < Rabs (tanh x - r)) by (apply tanh_big_far; assumption).
+  assert (0 < 1 / 10 ^ 9) by (interval with (i_prec 64)).
+  assert (1 / 10 ^ 9 * Rabs (tanh x) <= 1 / 10 ^ 9 * 1) by (apply Rmult_le_compat_l; lra).
+  lra.
+Qed.
+
+Lemma tanh_big_far_neg : forall x r t, x <= -20 ->
+  t + 1 / 10 ^ 17 < Rabs (-1 - r) -> t < Rabs (tanh x - r).
+Proof.
+  intros x r t Hx H. pose proof (tanh_big_pos (- x) ltac:(lra)) as [H0 H1].
+  rewrite tanh_opp in *.
+  replace (tanh x - r) with ((-1 - r) - (- (1 + tanh x))) by ring.
+  pose proof (Rabs_triang_inv (-1 - r) (- (1 + tanh x))) as Ht.
+  rewrite Rabs_Ropp, (Rabs_right (1 + tanh x)) in Ht by lra. lra.
+Qed.
+
+Lemma tanh_big_far_rel_neg : forall x r, x <= -20 ->
+  1 / 10 ^ 9 + 1 / 10 ^ 17 < Rabs (-1 - r) -> 1 / 10 ^ 9 * Rabs (tanh x) + 0 < Rabs (tanh x - r).
+Proof.
+  intros x r Hx H. pose proof (tanh_big_pos (- x) ltac:(lra)) as [H0 H1].
+  rewrite tanh_opp in *.
+  assert (Hb : Rabs (tanh x) <= 1).
+  { apply Rabs_le. assert (1 / 10 ^ 17 < 1) by (interval with (i_prec 64)). lra. }
+  assert (Hf : 1 / 10 ^ 9 < Rabs (tanh x - r)) by (apply tanh_big_far_neg; assumption).
+  assert (0 < 1 / 10 ^ 9) by (interval with (i_prec 64)).
+  assert (1 / 10 ^ 9 * Rabs (tanh x) <= 1 / 10 ^ 9 * 1) by (apply Rmult_le_compat_l; lra).
+  lra.
+Qed.
+
+Ltac pt_tanh_big_not :=
+  split;
+  [ first [ apply tanh_big_far; [lra | interval with (i_prec 200)]
+          | apply tanh_big_far_neg; [lra | interval with (i_prec 200)] ]
+  | first [ apply tanh_big_far_rel; [lra | interval with (i_prec 200)]
+          | apply tanh_big_far_rel_neg; [lra | interval with (i_prec 200)] ] ].
+
 Ltac pt_tanh_big := first [ apply tanh_big; [lra | interval with (i_prec 200)]
                           | apply tanh_big_neg; [lra | interval with (i_prec 200)] ].
 
